@@ -108,6 +108,8 @@ type acc struct {
 	cnt    []int64 // faces: n cells, otherwise 16 quantile cells
 	res    [16]int64
 	pc     int // pair alphabet size
+	thr16  [17]uint64 // thr16[j] = ceil(j*n/16): quantile cell j is [thr16[j], thr16[j+1])
+	thr4   [5]uint64
 	pairs  [nLags][]int64
 	ring   [8]int
 	j      int64
@@ -130,7 +132,45 @@ func newAcc(n uint64) *acc {
 	for l := 0; l < nLags; l++ {
 		a.pairs[l] = make([]int64, a.pc*a.pc)
 	}
+	for j := 0; j <= 16; j++ {
+		a.thr16[j] = ceilMulDiv(uint64(j), n, 16)
+	}
+	for j := 0; j <= 4; j++ {
+		a.thr4[j] = ceilMulDiv(uint64(j), n, 4)
+	}
 	return a
+}
+
+// q16 = floor(y*16/n) for n >= 16, by search in the exact cell boundaries (no division per draw)
+func (a *acc) q16(y uint64) int {
+	t := &a.thr16
+	q := 0
+	if y >= t[8] {
+		q = 8
+	}
+	if y >= t[q+4] {
+		q += 4
+	}
+	if y >= t[q+2] {
+		q += 2
+	}
+	if y >= t[q+1] {
+		q++
+	}
+	return q
+}
+
+// q4 = floor(y*4/n) for n >= 4
+func (a *acc) q4(y uint64) int {
+	t := &a.thr4
+	q := 0
+	if y >= t[2] {
+		q = 2
+	}
+	if y >= t[q+1] {
+		q++
+	}
+	return q
 }
 
 // add feeds one die; false = the value is outside 1..n (recorded).
@@ -150,10 +190,10 @@ func (a *acc) add(x int64) bool {
 		if a.n <= pairFaces {
 			pcell = int(y)
 		} else {
-			pcell = quantCell(y, a.n, 4)
+			pcell = a.q4(y)
 		}
 	} else {
-		q := quantCell(y, a.n, 16)
+		q := a.q16(y)
 		a.cnt[q]++
 		a.res[y&15]++
 		pcell = q >> 2
@@ -290,7 +330,7 @@ func (a *acc) finish() *verdict {
 			continue
 		}
 		if bad, d, e := worst(a.pairs[l], joint, float64(np), fmt.Sprintf("pair (die i, die i+%d), %d classes per die,", l+1, a.pc)); bad {
-			return &verdict{fmt.Sprintf("dependence:lag%d", l+1), d, e + "; successive dice independent"}
+			return &verdict{fmt.Sprintf("pairs:lag%d", l+1), d, e + "; the pair (die i, die i+L) is uniform over its cells: uniform faces, independent successive dice"}
 		}
 	}
 	return nil
@@ -337,8 +377,8 @@ func checkStat(c StatCase, s *rt.Section) *rt.Failure {
 		switch {
 		case strings.HasPrefix(v.sig, "range:"):
 			or = "range"
-		case strings.HasPrefix(v.sig, "dependence:"):
-			or = "independent-pairs"
+		case strings.HasPrefix(v.sig, "pairs:"):
+			or = "uniform-pairs"
 		}
 		if c.Via == "vm" {
 			v.sig = "vm-" + v.sig
@@ -548,22 +588,23 @@ func drawSeed(t *rapid.T) string {
 	return hex.EncodeToString(b)
 }
 
-// drawN draws a number of sides and its class label. cnt counts the sizes the generator
-// refused because Roll documents them as unsupported (n = 2^63-1).
-func drawN(t *rapid.T, s *rt.Section) (uint64, string) {
+// drawN draws a number of sides and its class label; minK is the least exponent of the
+// power-of-two families (section large leaves n < 64 to the enumerated section). The one size
+// the generator can reach that Roll refuses (n = 2^63-1) is counted and replaced.
+func drawN(t *rapid.T, s *rt.Section, minK int) (uint64, string) {
 	kind := rapid.SampledFrom([]string{"pow2", "pow2+1", "pow2-1", "3pow2", "5pow2", "max", "log", "frac", "frac", "frac", "frac", "top", "top", "top"}).Draw(t, "kind")
 	var n uint64
 	switch kind {
 	case "pow2":
-		n = 1 << uint(rapid.IntRange(0, 62).Draw(t, "k"))
+		n = 1 << uint(rapid.IntRange(minK, 62).Draw(t, "k"))
 	case "pow2+1":
-		n = 1<<uint(rapid.IntRange(1, 62).Draw(t, "k")) + 1
+		n = 1<<uint(rapid.IntRange(minK+1, 62).Draw(t, "k")) + 1
 	case "pow2-1":
-		n = 1<<uint(rapid.IntRange(2, 63).Draw(t, "k")) - 1
+		n = 1<<uint(rapid.IntRange(minK+2, 63).Draw(t, "k")) - 1
 	case "3pow2":
-		n = 3 << uint(rapid.IntRange(0, 61).Draw(t, "k"))
+		n = 3 << uint(rapid.IntRange(minK, 61).Draw(t, "k"))
 	case "5pow2":
-		n = 5 << uint(rapid.IntRange(0, 60).Draw(t, "k"))
+		n = 5 << uint(rapid.IntRange(minK, 60).Draw(t, "k"))
 	case "frac":
 		// n = floor(2^64*d/m) with 2 < m/d <= 64: 2^64/n is close to m/d, so a fraction
 		// (m mod d)/d of a whole extra pre-image falls on the low residues without rejection
@@ -576,7 +617,7 @@ func drawN(t *rapid.T, s *rt.Section) (uint64, string) {
 	case "max":
 		n = maxN - uint64(rapid.IntRange(0, 3).Draw(t, "below"))
 	case "log":
-		e := uint(rapid.IntRange(0, 62).Draw(t, "e"))
+		e := uint(rapid.IntRange(minK, 62).Draw(t, "e"))
 		n = 1<<e + rapid.Uint64Range(0, 1<<e-1).Draw(t, "m")
 	case "top":
 		n = rapid.Uint64Range(1<<60, maxN).Draw(t, "n")
@@ -647,7 +688,7 @@ func TestProp(t *testing.T) {
 	// ---- small: every n, faces exactly
 	topN, reps, draws := 64, 4, 1_000_000
 	if thorough {
-		topN, reps, draws = 256, 8, 10_000_000
+		topN, reps, draws = 256, 4, 10_000_000
 	}
 	if scale < 1 {
 		draws = int(float64(draws) * scale)
@@ -684,10 +725,10 @@ func TestProp(t *testing.T) {
 	if thorough {
 		ldraws = 10_000_000
 	}
-	run.Check("large", 4800, 6000,
-		fmt.Sprintf("n drawn from: 2^k, 2^k+-1, 3*2^k, 5*2^k, floor(2^64*d/m) (sizes where plain v mod n is most biased), 2^63-2-(0..3), log-uniform, uniform in [2^60,2^63-2]; 16 random state bytes; %d draws of Roll(src,n,0): every draw in 1..n; n<=1024 per-face counts, above 16 equal-width quantile cells (128-bit arithmetic, exact cell probabilities) and 16 low-residue cells, plus (die i, die i+L) pairs L=1..4 over 4 quantile classes, all within the Bernstein bound at error probability 1e-13 per statistic; non-trivial = n not a power of two or n > 2^32; distinct by (n, state)", ldraws),
+	run.Check("large", 3200, 3000,
+		fmt.Sprintf("n >= 64 drawn from: 2^k, 2^k+-1, 3*2^k, 5*2^k, floor(2^64*d/m) (sizes where plain v mod n is most biased), 2^63-2-(0..3), log-uniform, uniform in [2^60,2^63-2]; 16 random state bytes; %d draws of Roll(src,n,0): every draw in 1..n; n<=1024 per-face counts, above 16 equal-width quantile cells (128-bit arithmetic, exact cell probabilities) and 16 low-residue cells, plus (die i, die i+L) pairs L=1..4 over 4 quantile classes, all within the Bernstein bound at error probability 1e-13 per statistic; non-trivial = n not a power of two or n > 2^32; distinct by (n, state)", ldraws),
 		func(t *rapid.T, s *rt.Section) {
-			n, kind := drawN(t, s)
+			n, kind := drawN(t, s, 6)
 			c := StatCase{N: n, Seed: drawSeed(t), Draws: ldraws, Class: kind}
 			s.Eval()
 			s.ClassN("draws", int64(c.Draws))
@@ -712,10 +753,10 @@ func TestProp(t *testing.T) {
 	if noShrink {
 		os.Setenv("VERIF_SHRINKTIME", "0s")
 	}
-	run.Check("vm", 96, 640,
+	run.Check("vm", 96, 256,
 		fmt.Sprintf("script \"<K>d<n>\" (K in {20,100,500}) run repeatedly (at most 1000 Runs) on one Context seeded with 16 random bytes until %d dice were printed in the dice span of the process text; n drawn as in section large; the printed dice are judged like direct draws (range, faces / quantile and residue cells, successive pairs), and the package-global generator must be untouched; non-trivial = n not a power of two or n > 2^32; distinct by (n, K, state)", vdraws),
 		func(t *rapid.T, s *rt.Section) {
-			n, kind := drawN(t, s)
+			n, kind := drawN(t, s, 0)
 			c := StatCase{N: n, Seed: drawSeed(t), Draws: vdraws, Via: "vm", Times: rapid.SampledFrom([]int{20, 100, 500}).Draw(t, "times"), Class: kind}
 			if c.Draws > c.Times*1000 {
 				c.Draws = c.Times * 1000 // at most 1000 Runs per case
@@ -741,7 +782,7 @@ func TestProp(t *testing.T) {
 	run.Check("source", 40000, 400000,
 		"n drawn as in section large, 16 random state bytes, k in 1..64 dice: Roll with an explicit source leaves the package-global generator (seen through (&Context{}).GetCurSeed()) unchanged; two sources in the same state, the generator of Context{Seed}.Init(), and a state saved after k dice and restored all give identical dice; Roll(nil,n,0) is in 1..n and touches no explicit source; non-trivial = (n not a power of two or n > 2^32) and k >= 2; distinct by (n, state, k)",
 		func(t *rapid.T, s *rt.Section) {
-			n, kind := drawN(t, s)
+			n, kind := drawN(t, s, 0)
 			c := SourceCase{N: n, Seed: drawSeed(t), K: rapid.IntRange(1, 64).Draw(t, "k")}
 			s.Eval()
 			s.Class("kind:" + kind)
@@ -758,6 +799,44 @@ func TestProp(t *testing.T) {
 
 	run.Note("_roll32 is unreachable on this 64-bit build (IntTypeSize == 8) and is not exercised")
 	run.Note("n = 2^63-1 is refused by Roll (returns 0 by an explicit guard) and is treated as outside the supported sizes; the largest size judged is 2^63-2")
+}
+
+// TestCells cross-checks the boundary search against the 128-bit division it replaces.
+func TestCells(t *testing.T) {
+	ns := []uint64{9, 16, 17, 63, 1000, 1025, 1<<32 + 1, 7378697629483820646, 3 << 61, maxN, maxN - 1, 1 << 62, 1<<62 + 1}
+	x := uint64(12345)
+	for _, n := range ns {
+		a := newAcc(n)
+		for i := 0; i < 200000; i++ {
+			x = rt.Mix(x)
+			y := x % n
+			switch i {
+			case 0:
+				y = 0
+			case 1:
+				y = n - 1
+			}
+			if i >= 2 && i < 36 && n >= 16 { // both sides of every boundary
+				y = a.thr16[(i-2)/2%16+1] - uint64(i%2)
+				if y >= n {
+					y = n - 1
+				}
+			}
+			if n >= 16 && a.q16(y) != quantCell(y, n, 16) {
+				t.Fatalf("q16(%d) n=%d: %d vs %d", y, n, a.q16(y), quantCell(y, n, 16))
+			}
+			if a.q4(y) != quantCell(y, n, 4) {
+				t.Fatalf("q4(%d) n=%d: %d vs %d", y, n, a.q4(y), quantCell(y, n, 4))
+			}
+		}
+		var sum uint64
+		for _, c := range quantCounts(n, 16) {
+			sum += c
+		}
+		if sum != n {
+			t.Fatalf("quantCounts(%d,16) sums to %d", n, sum)
+		}
+	}
 }
 
 func TestReplay(t *testing.T) {
